@@ -1,104 +1,235 @@
-(* Pipeline/ProofsOrder.v — the order invariant, downstream half: from the serializer's context
-   re-check to the consumer.  The upstream half (the per-worker chain invariant of DESIGN.md 4.1:
-   queue_out i ++ held i ++ queue_in i ++ reader-held = results of the increasing run of positions
-   = i mod n between serializer and reader position) is stated as the predicate [up_ok] on states
-   and is NOT proved here.  This file currently holds the definitions of the invariant, the
-   specification-side prefix lemma and the base case; the inductive step is unfinished. *)
+(* Pipeline/ProofsOrder.v — the order invariant lifted to [step] and [reach]; the order theorem
+   delivered_is_prefix for every n >= 1, every input, every schedule (every interleaving of
+   reader, workers, serializer, consumer and API calls incl. concurrent cancellation, every
+   resolution of every select). *)
 From Coq Require Import List ZArith Bool Arith Lia.
-From Verif Require Import Pipeline.Model Pipeline.ProofsBasic.
+From Verif Require Import Pipeline.Model Pipeline.ProofsBasic Pipeline.ProofsChain.
 Import ListNotations.
-
-Definition objs_of (it : item) : list obj := match it with IBlock os => os | _ => [] end.
-Definition err_of (it : item) : err := match it with IBlock _ => 0%Z | IBad e => e | IRdErr e => e end.
-
-Lemma decode_objs : forall k it, o_objs (decode (k, it)) = objs_of it.
-Proof. intros k [os|e|e]; reflexivity. Qed.
-Lemma decode_err : forall k it, o_err (decode (k, it)) = err_of it.
-Proof. intros k [os|e|e]; reflexivity. Qed.
-Lemma objs_or_err : forall it, objs_of it = [] \/ err_of it = 0%Z.
-Proof. intros [os|e|e]; cbn; auto. Qed.
-
-Lemma rd_cons : forall x inp k, rd (x :: inp) (S k) = rd inp k.
-Proof. reflexivity. Qed.
-
-(* the prefix lemma: objects of the first m positions, all but the last error free *)
-Lemma pre_prefix : forall inp m, wf_input inp = true ->
-  (forall k, k + 1 < m -> err_of (rd inp k) = 0%Z) ->
-  exists t, concat (map (fun k => objs_of (rd inp k)) (seq 0 m)) ++ t = expected inp.
-Proof.
-  induction inp as [|x inp IH]; intros m Hwf H.
-  - exists []. rewrite app_nil_r. cbn. induction (seq 0 m) as [|a l IHl]; [reflexivity|].
-    cbn. destruct a; cbn; exact IHl.
-  - destruct m as [|m']; [exists (expected (x :: inp)); reflexivity|].
-    rewrite <- cons_seq, <- seq_shift. cbn [map concat]. rewrite map_map.
-    change (rd (x :: inp) 0) with x.
-    destruct x as [os|e|e]; cbn [objs_of expected wf_input] in *.
-    + destruct (IH m' Hwf) as [t Ht].
-      { intros k Hk. specialize (H (S k)). rewrite rd_cons in H. apply H. lia. }
-      exists t. rewrite <- app_assoc. f_equal. exact Ht.
-    + apply andb_true_iff in Hwf. destruct Hwf as [He _].
-      destruct m' as [|m'']; [exists []; reflexivity|].
-      specialize (H 0). cbn in H. rewrite H in He by lia. discriminate.
-    + apply andb_true_iff in Hwf. destruct Hwf as [He _].
-      destruct m' as [|m'']; [exists []; reflexivity|].
-      specialize (H 0). cbn in H. rewrite H in He by lia. discriminate.
-Qed.
 
 Section Order.
 Variable c : cfg.
+Hypothesis Hn : 1 <= c_n c.
 Hypothesis Hwf : wf_input (c_inp c) = true.
 Hypothesis Hre : c_recheck c = true.
 Hypothesis Hnx : c_nextctx c = true.
 
-Definition res (k : nat) : opair := decode (k, rd (c_inp c) k).
-Definition errfree (m : nat) : Prop := forall k, k < m -> o_err (res k) = 0%Z.
-Definition pre (m : nat) : list obj := concat (map (fun k => objs_of (rd (c_inp c) k)) (seq 0 m)).
-Definition sheld (s : state) : list opair := match s_pc s with SSend p => [p] | _ => [] end.
-Definition fwd (s : state) : nat := c_cnt s + length (oq s).   (* items pushed into the ordered queue *)
+Definition Inv (s : state) : Prop :=
+  length (ws s) = c_n c /\
+  DnC c (s_pc s) (oq s) (cd_objs s) (cd_err s) (delivered s) (c_cnt s) /\
+  (cancelled s = false -> UpC c (r_pc s) (r_pos s) (ws s) (s_pc s) (s_cnt s) (oq s) (c_cnt s)).
 
-(* what the upstream half has to guarantee: the item the serializer holds when it re-checks the
-   context is, unless the context is already cancelled, the next block in file order *)
-Definition up_ok (s : state) : Prop :=
-  cancelled s = false -> match s_pc s with SChk p => p = res (fwd s) | _ => True end.
-
-Inductive reach_up : state -> Prop :=
-| ru_init : reach_up (init c)
-| ru_step : forall s l s' o, reach_up s -> up_ok s -> step c l s = Some (s', o) -> reach_up s'.
-
-Definition dinv (s : state) : Prop :=
-  oq s ++ sheld s = map res (seq (c_cnt s) (length (oq s ++ sheld s))) /\
-  errfree (fwd s - 1) /\ (s_pc s <> SDone -> errfree (fwd s)) /\
-  delivered s ++ cd_objs s = pre (c_cnt s) /\
-  (cd_objs s = [] \/ cd_err s = 0%Z).
-
-Arguments pre : simpl never.
-Arguments res : simpl never.
-
-Lemma pre_S : forall m, pre (S m) = pre m ++ o_objs (res m).
+Lemma inv_init : Inv (init c).
 Proof.
-  intros m. unfold pre. rewrite seq_S, map_app, concat_app. cbn. rewrite app_nil_r.
-  unfold res. rewrite decode_objs. reflexivity.
+  unfold Inv, init. cbn. split; [apply repeat_length|]. split.
+  - unfold DnC. cbn. repeat split; auto; intros k Hk; lia.
+  - intros _. unfold UpC. cbn [sheld]. destruct (c_resume c).
+    + split; [lia|]. split; [|split; [|split; [|split; [|split]]]].
+      * intros i Hi. rewrite (getw_repeat (c_n c) i Hi). unfold outs_w, want. cbn.
+        destruct (0 mod c_n c =? i); reflexivity.
+      * intros E; discriminate E.
+      * intros e E; discriminate E.
+      * intros k it sel E. injection E as <- <- _. split; reflexivity.
+      * intros i Hi Hd. rewrite (getw_repeat (c_n c) i Hi) in Hd. discriminate Hd.
+      * reflexivity.
+    + split; [lia|]. split; [|split; [|split; [|split; [|split]]]].
+      * intros i Hi. rewrite (getw_repeat (c_n c) i Hi). reflexivity.
+      * intros E; discriminate E.
+      * intros e E He. injection E as <-. discriminate He.
+      * intros k it sel E; discriminate E.
+      * intros i Hi Hd. rewrite (getw_repeat (c_n c) i Hi) in Hd. discriminate Hd.
+      * reflexivity.
 Qed.
 
-Lemma map_res_S : forall a m, map res (seq a (S m)) = map res (seq a m) ++ [res (a + m)].
-Proof. intros a m. rewrite seq_S, map_app. reflexivity. Qed.
-
-Lemma errfree_le : forall a b, a <= b -> errfree b -> errfree a.
-Proof. intros a b H Hb k Hk. apply Hb. lia. Qed.
-
-Lemma dinv_init : dinv (init c).
+Lemma inv_reader : forall d s s', Inv s -> step_reader c d s = Some s' -> Inv s'.
 Proof.
-  unfold dinv, init, fwd, sheld, errfree. cbn. repeat split; auto; intros; lia.
+  intros d s s' (HL & HD & HU) H. unfold step_reader in H. step_split H; injection H as <-;
+    unfold Inv; cbn; (split; [rewrite ?setw_length; exact HL|]); (split; [exact HD|]); intros Hc;
+    try (rewrite Hc in *; discriminate); first [specialize (HU Hc) | specialize (HU eq_refl)].
+  - eapply up_r_test_read; eassumption.
+  - match goal with Hl : loop_cond _ _ _ = false |- _ => rename Hl into Hloop end.
+    destruct e.
+    + eapply up_r_test_done; eassumption.
+    + exfalso. rewrite ?Hc in Hloop. unfold loop_cond in Hloop. destruct (c_and c); discriminate Hloop.
+  - eapply up_r_read; eassumption.
+  - eapply up_r_send; eassumption.
+  - eapply up_r_send; eassumption.
 Qed.
 
-(* The inductive step  dinv s -> up_ok s -> step c l s = Some (s', o) -> dinv s'  and its
-   corollary
+Lemma inv_worker : forall i d s s', Inv s -> step_worker c i d s = Some s' -> Inv s'.
+Proof.
+  intros i d s s' (HL & HD & HU) H. unfold step_worker in H. step_split H; injection H as <-;
+    unfold Inv; cbn; (split; [rewrite ?setw_length; exact HL|]); (split; [exact HD|]); intros Hc;
+    try (rewrite Hc in *; discriminate); first [specialize (HU Hc) | specialize (HU eq_refl)].
+  all: match goal with Hi : (_ <? _) = true |- _ => apply Nat.ltb_lt in Hi end.
+  - assert (r_pc s = RDone) as Hr.
+    { match goal with Hd : is_rdone (r_pc s) = true |- _ => destruct (r_pc s); try discriminate Hd; reflexivity end. }
+    eapply up_w_done; eassumption.
+  - eapply up_w_take; eassumption.
+  - eapply up_w_send; eassumption.
+Qed.
 
-     delivered_is_prefix_partial : forall s, reach_up s -> exists t, delivered s ++ t = expected (c_inp c)
+Lemma inv_ser : forall d s s', Inv s -> step_ser c d s = Some s' -> Inv s'.
+Proof.
+  intros d s s' (HL & HD & HU) H. unfold step_ser, ser_done_branch, ser_exit in H. step_split H; injection H as <-;
+    unfold Inv; cbn; (split; [rewrite ?setw_length; exact HL|]).
+  all: try discriminate Hnx.
+  - (* SRecv, Done branch *)
+    split; [eapply dn_s_exit; eassumption|intros Hc; discriminate Hc].
+  - (* SRecv, closed empty output: only after cancellation *)
+    split; [eapply dn_s_idle; try eassumption; try reflexivity; discriminate|].
+    intros Hc. specialize (HU Hc). exfalso.
+    assert (errfree c (s_cnt s)) as Hef.
+    { destruct HD as (_ & _ & E1 & _). destruct HU as (_ & _ & _ & _ & _ & _ & U6). rewrite U6. apply E1. discriminate. }
+    assert (w_pc (getw (s_cnt s mod c_n c) (ws s)) = WDone) as Hwd.
+    { match goal with Hd : is_wdone ?x = true |- _ => destruct x; try discriminate Hd; reflexivity end. }
+    eapply up_s_zero_absurd; eassumption.
+  - (* SRecv, receive *)
+    split; [eapply dn_s_idle; try eassumption; try reflexivity; discriminate|].
+    intros Hc. specialize (HU Hc).
+    match goal with Ho : w_out _ = _ :: _ |- _ => destruct (up_s_take c Hn _ _ _ _ _ _ _ _ HL Ho HU) as [_ HU'] end.
+    exact HU'.
+  - (* SChk: context cancelled: exit *)
+    split; [eapply dn_s_exit; eassumption|intros Hc; discriminate Hc].
+  - (* SChk: forward *)
+    match goal with Hb : (c_recheck c && cancelled s)%bool = false |- _ => rewrite Hre in Hb; cbn in Hb end.
+    match goal with Hb : cancelled s = false |- _ => specialize (HU Hb) end.
+    split; [|intros _; eapply up_s_chk_send; eassumption].
+    eapply dn_s_chk_send; [|eassumption]. destruct HU as (_ & _ & _ & _ & _ & _ & U6). exact (proj2 U6).
+  - (* SSend, Done branch *)
+    split; [eapply dn_s_exit; eassumption|intros Hc; discriminate Hc].
+  - (* SSend: pushed an error item: exit *)
+    split; [eapply dn_s_push_exit; eassumption|intros Hc; discriminate Hc].
+  - (* SSend: pushed *)
+    match goal with He : is_err (o_err p) = false |- _ =>
+      unfold is_err in He; apply negb_false_iff, Z.eqb_eq in He; rename He into Herr end.
+    split; [eapply dn_s_push; eassumption|].
+    intros Hc. specialize (HU Hc). eapply up_s_push; eassumption.
+Qed.
 
-   are NOT finished (reader, worker, serializer and API cases are done, the consumer case is
-   not); the script so far is kept in /verif/notes/C02_ProofsOrder_unfinished.v.txt.  The full
-   statement, with [reach] instead of [reach_up], additionally needs the upstream chain invariant
-   of DESIGN.md 4.1. *)
+
+
+
+Lemma inv_cons : forall s s' o, Inv s -> step_cons c s = Some (s', o) -> Inv s'.
+Proof.
+  intros s s' o HI H. unfold step_cons, next_closed_err in H. step_split H; injection H as <- <-;
+    destruct HI as (HL & HD & HU); unfold Inv; cbn; (split; [exact HL|]).
+  all: try discriminate Hnx.
+  all: try (split; assumption).
+  all: repeat match goal with Hq : cd_objs _ = _ |- _ => rewrite ?Hq; rewrite Hq in HD; clear Hq end.
+  all: repeat match goal with Hq : oq _ = _ |- _ => rewrite Hq in HD, HU; clear Hq end.
+  - (* the EOF item *)
+    match goal with He : (o_err _ =? eEOF)%Z = true |- _ => apply Z.eqb_eq in He end.
+    split; [eapply dn_c_recv_eof; eassumption|].
+    intros Hc. specialize (HU Hc). eapply up_c_recv; eassumption.
+  - (* a data item *)
+    pose proof HD as HD'. eapply dn_c_recv in HD'; try exact Hn; try exact Hwf. destruct HD' as [_ HD']. split; [exact HD'|].
+    intros Hc. specialize (HU Hc). eapply up_c_recv; eassumption.
+  - (* object while cData.Err is set: impossible *)
+    exfalso. pose proof HD as HD'. eapply dn_c_deliver in HD'; try exact Hn; try exact Hwf. destruct HD' as [Hz _].
+    match goal with He : is_err (cd_err s) = true |- _ => unfold is_err in He; rewrite Hz in He; discriminate He end.
+  - (* deliver *)
+    pose proof HD as HD'. eapply dn_c_deliver in HD'; try exact Hn; try exact Hwf. destruct HD' as [_ HD']. split; [exact HD'|exact HU].
+Qed.
+
+Lemma ensure_started_inv : forall s, Inv s -> Inv (ensure_started c s).
+Proof.
+  intros s H. unfold ensure_started. destruct (started s); [exact H|].
+  destruct (is_err (c_hdr_err c)); exact H.
+Qed.
+
+Lemma inv_cancel : forall s, Inv s -> Inv (set_cancelled true s).
+Proof. intros s (HL & HD & HU). unfold Inv. cbn. split; [exact HL|]. split; [exact HD|]. intros E; discriminate E. Qed.
+
+Lemma inv_api : forall a s s' o, Inv s -> step_api c a s = Some (s', o) -> Inv s'.
+Proof.
+  intros a s s' o HI H. unfold step_api in H.
+  destruct a; step_split H; injection H as <- <-.
+  all: try exact HI.
+  all: try (apply ensure_started_inv; exact HI).
+  all: try (pose proof (ensure_started_inv s HI) as (HL & HD & HU); unfold Inv; cbn; repeat split; assumption).
+  all: try (destruct HI as (HL & HD & HU); unfold Inv; cbn; split; [exact HL|]; split; [exact HD|]; intros E; discriminate E).
+Qed.
+
+Lemma inv_step : forall l s s' o, Inv s -> step c l s = Some (s', o) -> Inv s'.
+Proof.
+  intros l s s' o HI H. destruct l as [d|i d|d| |a]; cbn in H.
+  - destruct (running s); [|discriminate H]. destruct (step_reader c d s) eqn:E; [|discriminate H].
+    injection H as <- <-. eapply inv_reader; eassumption.
+  - destruct (running s); [|discriminate H]. destruct (step_worker c i d s) eqn:E; [|discriminate H].
+    injection H as <- <-. eapply inv_worker; eassumption.
+  - destruct (running s); [|discriminate H]. destruct (step_ser c d s) eqn:E; [|discriminate H].
+    injection H as <- <-. eapply inv_ser; eassumption.
+  - eapply inv_cons; eassumption.
+  - eapply inv_api; eassumption.
+Qed.
+
+Lemma reach_inv : forall s, reach c s -> Inv s.
+Proof.
+  intros s H. induction H as [|s l s' o Hr IH Hs]; [apply inv_init|].
+  exact (inv_step l s s' o IH Hs).
+Qed.
+
+(* THE ORDER THEOREM: whatever the schedule, what the consumer has been given is a prefix of the
+   file's elements in file order: nothing lost, duplicated, or moved between blocks *)
+Lemma delivered_is_prefix : forall s, reach c s -> exists t, delivered s ++ t = expected (c_inp c).
+Proof.
+  intros s H. destruct (reach_inv s H) as (_ & (D1 & E0 & E1 & D4 & D7) & _).
+  destruct (pre_prefix (c_inp c) (c_cnt s) Hwf) as [t Ht].
+  - intros k Hk. specialize (E0 k). unfold res in E0. rewrite decode_err in E0. apply E0. lia.
+  - exists (cd_objs s ++ t). rewrite app_assoc, D4. exact Ht.
+Qed.
 
 End Order.
+
+(* ---- closed forms ---- *)
+Lemma wf_cfg_parts : forall c, wf_cfg c = true -> 1 <= c_n c /\ wf_input (c_inp c) = true.
+Proof.
+  intros c H. unfold wf_cfg in H. apply andb_true_iff in H. destruct H as [H _].
+  apply andb_true_iff in H. destruct H as [H1 H2]. apply Nat.leb_le in H1. auto.
+Qed.
+
+Theorem delivered_is_prefix_all : forall c s,
+  wf_cfg c = true -> c_recheck c = true -> c_nextctx c = true -> reach c s ->
+  exists t, delivered s ++ t = expected (c_inp c).
+Proof.
+  intros c s Hwf Hre Hnx H. destruct (wf_cfg_parts c Hwf) as [Hn Hi].
+  exact (delivered_is_prefix c Hn Hi Hre Hnx s H).
+Qed.
+
+(* the ghost [delivered] is exactly the sequence of objects returned by successful Scans *)
+Definition scan_vals (o : list output) : list obj :=
+  flat_map (fun x => match x with OScan true v => [v] | _ => [] end) o.
+
+Lemma step_delivered_outputs : forall c l s s' o, step c l s = Some (s', o) ->
+  delivered s' = delivered s ++ scan_vals o.
+Proof.
+  intros c l s s' o H.
+  destruct l as [d|i d|d| |a]; [| | | |destruct a]; step_cases H; cbn;
+    repeat match goal with |- context [ensure_started c s] =>
+      destruct (ensure_started_flags c s) as (_ & _ & _ & _ & _ & _ & ->) end;
+    rewrite ?app_nil_r; reflexivity.
+Qed.
+
+Lemma run_delivered_outputs : forall c sched s,
+  delivered (fst (run c sched s)) = delivered s ++ scan_vals (snd (run c sched s)).
+Proof.
+  induction sched as [|l r IH]; intros s; cbn; [rewrite app_nil_r; reflexivity|].
+  destruct (step c l s) as [[s' o]|] eqn:E.
+  - specialize (IH s'). destruct (run c r s') as [s'' o'] eqn:E2. cbn in *.
+    rewrite IH, (step_delivered_outputs c l s s' o E). unfold scan_vals.
+    rewrite flat_map_app, app_assoc. reflexivity.
+  - apply IH.
+Qed.
+
+(* consumer-visible form: the objects returned by the successful Scans of ANY run are a prefix of
+   the file's elements *)
+Theorem scans_are_prefix : forall c sched,
+  wf_cfg c = true -> c_recheck c = true -> c_nextctx c = true ->
+  exists t, scan_vals (snd (run c sched (init c))) ++ t = expected (c_inp c).
+Proof.
+  intros c sched Hwf Hre Hnx.
+  pose proof (run_delivered_outputs c sched (init c)) as H. cbn [delivered init] in H.
+  destruct (delivered_is_prefix_all c (fst (run c sched (init c))) Hwf Hre Hnx) as [t Ht].
+  { apply run_reach. constructor. }
+  exists t. rewrite <- Ht, H. reflexivity.
+Qed.
